@@ -62,7 +62,8 @@ def _work(args):
     fails = [(byid[i], c) for i, c in j["fails"] if not c.startswith("DRIFT")]
     drifts = [(byid[i], c) for i, c in j["fails"] if c.startswith("DRIFT")]
     # a state is expanded later unless EVERY call that produced it left the graph itself ill-formed
-    broken = {e["id"] for e, c in fails if c in CORE_BREAKING}
+    # ... nor the states left behind by a rejected multi-argument constructor (known finding KF-C15-ctor-partial)
+    broken = {e["id"] for e, c in fails if c in CORE_BREAKING or (e["act"]["name"] == "New" and c == "C15.unchanged")}
     for key, rec in new_states.items():
         good = [i for i in rec[1] if i not in broken]
         rec[1] = good[0] if good else None
